@@ -33,8 +33,8 @@ FANCY = {
 }
 
 
-def gen_program(rng, max_eq=4, max_lag=3, max_lead=3, allow_funcs=True):
-    prog = _gen_program(rng, max_eq, max_lag, max_lead, allow_funcs)
+def gen_program(rng, max_eq=4, max_lag=3, max_lead=3, allow_funcs=True, labels=None):
+    prog = _gen_program(rng, max_eq, max_lag, max_lead, allow_funcs, labels)
     if rng.random() < 0.35:
         # the same program under other names: several letters, digits, underscores, prefixes that are Python keywords or the
         # names of functions the parser knows (whole-word substitution on a script made of single-letter names)
@@ -51,6 +51,8 @@ def gen_program(rng, max_eq=4, max_lag=3, max_lead=3, allow_funcs=True):
             prog['params'] = [ren.get(x, x) for x in prog['params']]
             prog['errs'] = [ren.get(x, x) for x in prog['errs']]
             prog['order'] = [ren.get(x, x) for x in prog['order']]
+            lt = prog['label_terms']
+            prog['label_terms'] = {'reads': [[ren.get(a, a), b] for a, b in lt['reads']], 'slices': [[ren.get(a, a), b, c] for a, b, c in lt['slices']], 'lhs': [[ren.get(a, a), b] for a, b in lt['lhs']]}
     prog['declared'] = declared_names(prog)
     return prog
 
@@ -63,8 +65,9 @@ def declared_names(prog):
     return [x for x in order if x in endo] + [x for x in order if x not in endo and x not in params and x not in errs] + [x for x in order if x in params] + [x for x in order if x in errs]
 
 
-def _gen_program(rng, max_eq=4, max_lag=3, max_lead=3, allow_funcs=True):
+def _gen_program(rng, max_eq=4, max_lag=3, max_lead=3, allow_funcs=True, labels=None):
     n_eq = rng.randint(1, max_eq)
+    label_terms = {'reads': [], 'slices': [], 'lhs': []}  # terms that address a period by its label, whatever t is
     endo = ENDO[:n_eq]
     rich = rng.random() < 0.4  # parentheses, powers, unary minus, conditional expressions, other functions, layout
     reads = {}
@@ -150,12 +153,30 @@ def _gen_program(rng, max_eq=4, max_lag=3, max_lead=3, allow_funcs=True):
             return f'{fn}({rng.choice(COEFS)}, {atom(False)})'  # the constant first
         return f'{fn}({atom(False)}, {rng.choice(COEFS)}, {atom(False)})'  # three arguments
 
-    for v in endo:
+    with_labels = rng.randrange(len(endo)) if labels else None
+    for iv, v in enumerate(endo):
         note(v, 0)
         k = rng.randint(1, 3)
         expr = term()
         for _ in range(k - 1):
             expr += rng.choice([' + ', ' + ', ' - ']) + term()
+        if iv == with_labels:
+            # a term that reads a fixed period by its (quoted) label, and perhaps the mean over a label slice
+            ex = rng.choice(EXO)
+            lab = rng.choice(labels)
+            reads.setdefault(ex, set())
+            if ex not in order:
+                order.append(ex)
+            expr += f" + {ex}['{lab}']"
+            label_terms['reads'].append([ex, lab])
+            if rng.random() < 0.5 and len(labels) >= 2:
+                ia, ib = sorted(rng.sample(range(len(labels)), 2))
+                ex2 = rng.choice(EXO)
+                reads.setdefault(ex2, set())
+                if ex2 not in order:
+                    order.append(ex2)
+                expr += f" + np.mean({ex2}['{labels[ia]}':'{labels[ib]}'])"
+                label_terms['slices'].append([ex2, labels[ia], labels[ib]])
         if rich and rng.random() < 0.3 and ' + ' in expr:
             # a statement spread over several lines inside parentheses, with a comment
             head, tail = expr.split(' + ', 1)
@@ -165,6 +186,19 @@ def _gen_program(rng, max_eq=4, max_lag=3, max_lead=3, allow_funcs=True):
             lines.append(f'{v}{eq}{expr}' + (rng.choice(['  # a comment', '  # see note #2 above, formerly item #7']) if rich and rng.random() < 0.25 else ''))
         if rich and rng.random() < 0.2:
             lines.append('')
+    endo = list(endo)
+    # (the grammar's left-hand side is one run of non-blank characters: a label with a blank in it cannot stand there)
+    lhs_labels = [x for x in (labels or []) if not any(c.isspace() for c in x)]
+    if lhs_labels and rng.random() < 0.4:
+        # an equation whose left-hand side is a labelled period: it assigns that period, whichever period is being solved
+        lab = rng.choice(lhs_labels)
+        ex = rng.choice(EXO)
+        note('Q1', 0)
+        reads['Q1'] = set()
+        note(ex, 0)
+        lines.append(f"Q1['{lab}'] = 0.5 * {ex}")
+        endo.append('Q1')
+        label_terms['lhs'].append(['Q1', lab])
     lags = max([0] + [-o for s in reads.values() for o in s])
     leads = max([0] + [o for s in reads.values() for o in s])
     names = [x for x in endo] + [x for x in order if x not in endo]
@@ -178,6 +212,7 @@ def _gen_program(rng, max_eq=4, max_lag=3, max_lead=3, allow_funcs=True):
         'params': [x for x in names if x in PARAMS],
         'errs': [x for x in names if x in ERRS],
         'order': list(order),
+        'label_terms': label_terms,
     }
 
 
